@@ -120,6 +120,9 @@ def r2_layering(ctx):
         hit = sorted(x for x in pred if x in rd)
         reach_reader[p] = (cg.path_to(pred, hit[0]) if hit else None)
         return reach_reader[p]
+    seen_keys = set()
+    from ..report import load_known
+    known_keys = set(k['key'] for k in load_known() if k.get('property') == 'C08' and k.get('status') == 'known')
     for p in sorted(layer):
         ctx.fn(ctx.facts.bodies[p])
         bad = False
@@ -131,9 +134,24 @@ def r2_layering(ctx):
             path = reaches(y)
             if path:
                 bad = True
-                ctx.finding('R2', '%s->%s' % (fn_key(p), fn_key(y)),
-                            'compute-layer function %s calls %s, which reaches the separator reader %s: computed values depend on the separator configuration' % (fn_key(p), fn_key(y), fn_key(path[-1])),
-                            site=ctx.facts.bodies[p].loc, detail={'call_path': [p] + path})
+                # a private helper of compute-layer functions is reported under the functions it works for (extract-method
+                # must not rename a finding): its direct callers inside the layer, when it has no other kind of caller
+                who = [p]
+                edges_in = [(c, k2) for c, es in cg.edges.items() for (yy, k2) in es if yy == p and c != p]
+                own_key = 'C08/R2/%s->%s' % (fn_key(p), fn_key(y))
+                if own_key not in known_keys and edges_in and all(k2 == 'direct' and c in layer for c, k2 in edges_in) and not re.search(r' as .*>::', p):
+                    cands = sorted(set(c for c, _ in edges_in))
+                    if any('C08/R2/%s->%s' % (fn_key(c), fn_key(y)) in known_keys for c in cands):
+                        who = cands
+                for w in who:
+                    k_ = '%s->%s' % (fn_key(w), fn_key(y))
+                    if k_ in seen_keys:
+                        continue
+                    seen_keys.add(k_)
+                    ctx.finding('R2', k_,
+                                'compute-layer function %s calls %s%s, which reaches the separator reader %s: computed values depend on the separator configuration' % (
+                                    fn_key(w), fn_key(y), '' if w == p else ' (through its helper %s)' % fn_key(p), fn_key(path[-1])),
+                                site=ctx.facts.bodies[w].loc, detail={'call_path': ([w] if w != p else []) + [p] + path})
         if not bad:
             ctx.ok('R2', '%s reaches no separator reader' % fn_key(p), 'call-graph', sample=False)
 
